@@ -114,7 +114,17 @@ func init() {
 		if !wire.Unmarshal(br.Marshal()) {
 			return "err-unmarshal"
 		}
-		out, err := batched.NewBasicBatchedIssuer(iss...).EvaluateBatch(wire)
+		// one batch issuer per configuration for the whole run: a batch must not depend on the batches before it
+		bi, ok := c05issuers[a[0]]
+		if !ok {
+			bi = batched.NewBasicBatchedIssuer(iss...)
+			c05issuers[a[0]] = bi
+		}
+		// the caller's issuer list is its own to reuse once the batch issuer exists
+		for i := range iss {
+			iss[i] = nil
+		}
+		out, err := bi.EvaluateBatch(wire)
 		if err != nil {
 			return "err"
 		}
@@ -125,6 +135,8 @@ func init() {
 		return "ok " + hxv(out) + " | " + hxList(rs)
 	}
 }
+
+var c05issuers = map[string]*batched.BasicBatchedIssuer{}
 
 type c05Req struct {
 	kind   string // K U M T
@@ -137,8 +149,8 @@ type c05Req struct {
 func runC05(c *Ctx) {
 	r := NewRng(c.Seed, "c05")
 	reg := getC05Reg(c.Seed)
-	cfgs := [][]string{{"1a", "2a"}, {"1a"}, {"2a"}, {"1a", "1b", "2a", "2b"}, {"2b", "1b"}, {"1x", "1a", "2x", "2a"}, {"1a", "1a~"}, {"1a~", "1a", "2a"}, {}}
-	distinct := []bool{true, true, true, true, true, false, false, false, true}
+	cfgs := [][]string{{"1a", "2a"}, {"1a"}, {"2a"}, {"1a", "1b", "2a", "2b"}, {"2b", "1b"}, {"1x", "1a", "2x", "2a"}, {"1a", "1a~"}, {"1a~", "1a", "2a"}, {}, {"1a", "2a", "1b"}, {"2a", "1a", "2b", "1b"}, {"1b", "2b", "1a", "2a", "1x"}}
+	distinct := []bool{true, true, true, true, true, false, false, false, true, true, true, false}
 
 	mkReq := func(kind string, ty int, target *adIssuer) c05Req {
 		q := c05Req{kind: kind, target: target}
@@ -183,6 +195,7 @@ func runC05(c *Ctx) {
 		}
 		// oracle matrix: for each request, the outcome of every matching configured issuer (called directly)
 		expectPresent := make([]bool, len(reqs))
+		firstOK := make([][]byte, len(reqs))
 		for k, q := range reqs {
 			reqS = append(reqS, fmtReqWD(q.req))
 			var es []string
@@ -195,6 +208,9 @@ func runC05(c *Ctx) {
 					es = append(es, fmt.Sprintf("%d=err", j))
 				} else {
 					es = append(es, fmt.Sprintf("%d=%s", j, hxv(resp)))
+					if !expectPresent[k] {
+						firstOK[k] = resp
+					}
 					expectPresent[k] = true
 				}
 			}
@@ -231,6 +247,9 @@ func runC05(c *Ctx) {
 		for k, q := range reqs {
 			present := len(ents[k]) > 0
 			c.Direct(present == expectPresent[k], fmt.Sprintf("entry %d present=%v but a configured issuer of that type and key id evaluates it successfully=%v", k, present, expectPresent[k]), in)
+			if present && expectPresent[k] {
+				c.Direct(bytes.Equal(ents[k], firstOK[k]), fmt.Sprintf("entry %d is not the response of the first configured issuer of that type and key id that evaluates it successfully", k), in)
+			}
 			if present && distinct[ci] && q.kind == "K" {
 				// finalizes under its own request's state to a valid token
 				ok := false
@@ -274,7 +293,7 @@ func runC05(c *Ctx) {
 	c.notes["compositions"] = len(comps)
 	c.notes["configurations"] = len(cfgs)
 	for ci := range cfgs {
-		if !c.Thorough() && ci >= 4 && ci != 5 && ci != 6 {
+		if !c.Thorough() && ci >= 4 && ci != 5 && ci != 6 && ci != 9 && ci != 10 {
 			continue
 		}
 		for _, comp := range comps {
